@@ -2,6 +2,7 @@
    sorting = merge sort, all repairs on. *)
 From Coq Require Import Sorting.Mergesort Orders.
 From SK Require Import Base.Prelude Base.F64 Spec.Bins Store.Any Stat.Summary Sketch.Sketch Wire.Wire Data.Dataset.
+From SK Require Import Store.PaginatedLoops.
 From SK Require Import Codec.Codec.
 From SK Require Codec.Varfloat.
 
@@ -33,3 +34,8 @@ Definition xd_max := d_max QcSort.sort.
 
 (* Layer A observers evaluated next to Layer B ones (lockstep sanity check in the driver) *)
 Definition a_obs (b : bins) : W * bool * option Z * option Z := (total b, is_emptyb b, min_key b, max_key b).
+
+(* loop-by-loop transcriptions of the paginated observers, run next to the scan-based ones *)
+Definition xp_min_go := p_min_go.
+Definition xp_max_go := p_max_go.
+Definition xp_key_at_rank_go := p_key_at_rank_go ZSort.sort.
